@@ -2,7 +2,8 @@
 // running runtime (4 workers, up to 10 waiters), notifiers on tasks and on plain OS threads, user lock types
 // M = std::unique_lock<pika::mutex> (condition_variable), S = std::unique_lock<spinlock> (condition_variable_any),
 // C = a hand-written BasicLockable around pika::mutex (condition_variable_any).  Seeded busy-wait perturbation at
-// the hooks between the cv's unlock and suspend (705/706) and inside notify_one/notify_all (603/704).
+// the hooks before the internal lock is taken (707), between the cv's unlock and suspend (705/706) and inside
+// notify_one/notify_all (603/704).
 // Monitors (the property itself, evaluated on the implementation):
 //   all   a notify_all issued by a notifier that holds U while c waiters are registered wakes those c
 //   one   a notify_one issued while >= 1 waiter is registered wakes at least one
@@ -70,13 +71,13 @@ static void spin_for_ns(std::uint64_t ns)
 }
 static void hookfn(int site, void const*, std::uint64_t, std::uint64_t)
 {
-    if (site != 705 && site != 706 && site != 603 && site != 704) return;
+    if (site != 705 && site != 706 && site != 707 && site != 603 && site != 704) return;
     std::uint64_t s = g_pert.load(std::memory_order_relaxed);
     if (!s) return;
     std::uint64_t z = s ^ (g_cnt.fetch_add(1, std::memory_order_relaxed) * 0x9E3779B97F4A7C15ull) ^ ((std::uint64_t) site << 32);
     z = (z ^ (z >> 30)) * 0xBF58476D1CE4E5B9ull;
     z ^= z >> 27;
-    if ((z & 3) == 0) spin_for_ns(((z >> 8) % ((site == 705 || site == 706) ? 60 : 15)) * 1000);
+    if ((z & 3) == 0) spin_for_ns(((z >> 8) % ((site == 705 || site == 706 || site == 707) ? 60 : 15)) * 1000);
 }
 
 // a user-defined BasicLockable (condition_variable_any accepts any lock with lock()/unlock())
@@ -352,6 +353,62 @@ static Outcome run_stop(int variant, int K, Rng& rng)
     return out;
 }
 
+// ---------------------------------------------------------------------------------------------------
+// predicate wait: notifications arrive while the predicate is still false; the wait must not return before
+// the predicate has been set
+static Outcome run_pred(int K, bool any, Rng& rng)
+{
+    struct Shared
+    {
+        pika::mutex m;
+        pika::condition_variable cv;
+        pika::condition_variable_any cva;
+        bool flag = false;
+        int registered = 0;
+        std::atomic<int> done{0}, early{0}, bad_own{0};
+    };
+    auto sh = std::make_shared<Shared>();
+    Outcome out;
+    std::vector<pika::thread> th;
+    for (int t = 0; t < K; ++t)
+        th.emplace_back([sh, any] {
+            std::unique_lock<pika::mutex> lk(sh->m);
+            ++sh->registered;
+            if (any) sh->cva.wait(lk, [&] { return sh->flag; });
+            else sh->cv.wait(lk, [&] { return sh->flag; });
+            if (!sh->flag) ++sh->early;
+            if (!lk.owns_lock() || !owns(sh->m)) ++sh->bad_own;
+            lk.unlock();
+            ++sh->done;
+            ++g_heartbeat;
+        });
+    wait_until_true([&] { std::unique_lock<pika::mutex> lk(sh->m); return sh->registered >= 1; }, 4000);
+    int spur = 1 + (int) rng.below(3);
+    for (int i = 0; i < spur; ++i)
+    {
+        if (any) sh->cva.notify_all(); else sh->cv.notify_all();    // predicate still false
+        for (int y = 0; y < 20; ++y) pika::this_thread::yield();
+    }
+    {
+        std::unique_lock<pika::mutex> lk(sh->m);
+        if (sh->done.load() > 0) out.fail("predicate wait returned although the predicate was never set");
+        sh->flag = true;
+    }
+    // late arrivals see the flag themselves; the registered ones need this notification
+    if (any) sh->cva.notify_all(); else sh->cv.notify_all();
+    if (!wait_until_true([&] { return sh->done.load() >= K; }, 5000))
+    {
+        std::printf("OUT RT %d ok=0 detail=predicate wait did not return after the predicate was set and notify_all (%d of %d)\n",
+            g_case.load(), sh->done.load(), K);
+        std::fflush(stdout);
+        _exit(0);
+    }
+    for (auto& x : th) x.join();
+    if (sh->early) out.fail("predicate wait returned although the predicate was never set");
+    if (sh->bad_own) out.fail("predicate wait returned without owning the user lock");
+    return out;
+}
+
 static std::uint64_t g_seed = 1;
 static int g_ncases = 100;
 
@@ -362,7 +419,7 @@ int pika_main()
     {
         g_case = cs;
         g_pert = rng.next() | 1;
-        unsigned kind = (unsigned) rng.below(10);
+        unsigned kind = (unsigned) rng.below(11);
         int K = 1 + (int) rng.below(10);
         Outcome o;
         std::ostringstream in;
@@ -393,6 +450,14 @@ int pika_main()
             std::printf("%s\n", in.str().c_str());
             std::fflush(stdout);
             o = run_timed(variant, rng);
+        }
+        else if (kind == 10)
+        {
+            bool any = rng.chance(1, 2);
+            in << "IN RT " << cs << " kind=pred K=" << K << " any=" << any;
+            std::printf("%s\n", in.str().c_str());
+            std::fflush(stdout);
+            o = run_pred(K, any, rng);
         }
         else
         {
